@@ -24,10 +24,10 @@ PLAN = dict(
                 "erase, acquire (3 cases), single-block and chained-object allocation, destructive and non-destructive load of single-block and "
                 "chained objects, hence by every operation trace whose preconditions hold (example trace given); derived: classification of every "
                 "block below the frontier, no leak, no use after release, no double release. Refinement theorems to the x86-64 code on the ISA "
-                "semantics for share_block_n and erase_block (Proof/X86Mem.v). Link to programs: execution of the implementation's code with the "
+                "semantics for share_block_n, erase_block, release_block and acquire_block (all three cases) (Proof/X86Mem.v). Link to programs: execution of the implementation's code with the "
                 "invariant checked at every boundary; link of the other operations' code to the abstract model: heapops-x86",
-    assumptions=["Model/Heap.v abstracts memory.rs block-granularly; share_block_n and erase_block are proved to refine it on the ISA model, "
-                 "acquire_block/store/load are tied to it by the operation-level correspondence heapops-x86, not by proof",
+    assumptions=["Model/Heap.v abstracts memory.rs block-granularly; share_block_n, erase_block, release_block and acquire_block are proved to refine it on the ISA model, "
+                 "store/load are tied to it by the operation-level correspondence heapops-x86, not by proof",
                  "the trace theorem takes the well-formedness of loaded objects (continuation blocks with header 0, non-null links) as a precondition; "
                  "its derivation from typing of AxCut programs is not proved",
                  "Sem/X86Sem.v, Sem/AxSem.v, Sem/HeapCheck.v"],
